@@ -375,6 +375,12 @@ func c05SubList(p *prog, l *model.Node, start, end int) *model.Node {
 
 func c05Program(p *prog, steps int) {
 	r, h, c := p.r, p.h, p.c
+	// one program in eight works on long lists (growth bursts across several capacity doublings)
+	maxLen, burst := 24, 9
+	if r.Chance(1, 8) {
+		maxLen, burst = 150, 70
+		c.Count("big_list_programs")
+	}
 	// initial heap: 2-5 lists and 0-2 objects, built through the constructors under test
 	nl := r.Range(2, 5)
 	for i := 0; i < nl && !p.failed; i++ {
@@ -391,14 +397,14 @@ func c05Program(p *prog, steps int) {
 		l := ls[r.Intn(len(ls))]
 		n := len(l.E)
 		op := r.Intn(100)
-		if n > 24 && op < 45 {
+		if n > maxLen && op < 45 {
 			op = 45 + r.Intn(20) // prefer shrinking operations on long lists
 		}
 		switch {
 		case op < 12: // Add (sometimes a growth burst past the capacity)
 			k := r.Range(1, 3)
 			if r.Chance(1, 6) {
-				k = r.Range(4, 9)
+				k = r.Range(4, burst)
 			}
 			vals := make([]model.Val, k)
 			for i := range vals {
